@@ -1195,9 +1195,13 @@ impl CraneliftCompiler {
     fn prepare_jump_blocks(&mut self, bcx: &mut FunctionBuilder, insn_ptr: usize, insn: &Insn) {
         let insn_ptr = insn_ptr as u32;
         let next_pc: u32 = insn_ptr + 1;
-        let target_pc: u32 = (insn_ptr as isize + insn.off as isize + 1)
-            .try_into()
-            .unwrap();
+        // EXIT has no jump target, its offset field is unused
+        let target_pc: u32 = match insn.opc {
+            ebpf::EXIT | ebpf::TAIL_CALL => next_pc,
+            _ => (insn_ptr as isize + insn.off as isize + 1)
+                .try_into()
+                .unwrap(),
+        };
 
         // This is the fallthrough block
         let fallthrough_block = *self
